@@ -151,6 +151,44 @@ class FA:
             e, at, depth = val, d, depth - 1
         return e
 
+    def expand(self, e: ast.AST, at: int, depth: int = 5) -> ast.AST:
+        """A copy of e in which every local with exactly one reaching definition of the form 'v = E' - E call-free, its operands
+        having the same reaching definitions there and here - is replaced by E (temporaries and hoisted sub-expressions
+        are looked through).  Names bound by tuple unpacking, loops or several definitions stay."""
+        import copy
+        fa = self
+        rd = self.cfg.reaching()
+
+        class X(ast.NodeTransformer):
+            def __init__(self, at_, depth_):
+                self.at, self.depth = at_, depth_
+
+            def visit_Lambda(self, node):
+                return node
+
+            def visit_Name(self, node):
+                if not isinstance(node.ctx, ast.Load) or self.depth <= 0:
+                    return node
+                defs = rd.get(self.at, {}).get(node.id, set())
+                if len(defs) != 1:
+                    return node
+                (d,) = defs
+                nd = fa.cfg.nodes[d]
+                if nd.kind != "stmt" or not isinstance(nd.ast, (ast.Assign, ast.AnnAssign)):
+                    return node
+                tg = nd.ast.targets if isinstance(nd.ast, ast.Assign) else [nd.ast.target]
+                if len(tg) != 1 or not isinstance(tg[0], ast.Name) or nd.ast.value is None:
+                    return node
+                val = nd.ast.value
+                for y in ast.walk(val):
+                    if isinstance(y, ast.Name) and isinstance(y.ctx, ast.Load):
+                        if y.id == node.id or rd.get(d, {}).get(y.id, set()) != rd.get(self.at, {}).get(y.id, set()):
+                            return node
+                    if isinstance(y, (ast.Yield, ast.YieldFrom, ast.Await, ast.NamedExpr, ast.Call)):
+                        return node  # a call creates / changes objects: the variable is not interchangeable with it
+                return X(d, self.depth - 1).visit(copy.deepcopy(val))
+        return X(at, depth).visit(copy.deepcopy(e))
+
     def returns(self) -> List[Tuple[int, Optional[Term]]]:
         """(node, term of the returned value or None for a bare return) of every reachable return."""
         out = []
